@@ -46,6 +46,7 @@ fn fmt_op(op: &Op) -> String {
         Op::ReacquireNode { agent } => format!("reacquire {agent:?}"),
         Op::AbandonRequest { agent } => format!("abandon_request {agent:?}"),
         Op::ContendRequests { agent } => format!("contend_requests {agent:?}"),
+        Op::AbandonAfterRelease { agent } => format!("abandon_after_release {agent:?}"),
         Op::Reopen => "reopen".into(),
         Op::Kill => "kill".into(),
     }
